@@ -351,3 +351,34 @@ Proof. repeat split; discriminate. Qed.
 (* logger consistency holds in every reachable state (the invariant's hypothesis discharged) *)
 Theorem logger_consistent_reachable : forall s, reachable s -> logger_consistent s.
 Proof. intros s [h E]. subst. apply logger_consistent_run. reflexivity. Qed.
+
+(* ------------------------------------------------------------------ round 7: sequence-level lift of any_step_after_reset_from_start
+   not just ONE step but a WHOLE continuation script t behaves, after any history ending in a reset-like step and neutral steps,
+   as on another such history with the same (persistent, by contract) validation configuration ... *)
+Theorem whole_script_after_reset_two_histories : forall h1 r1 n1 h2 r2 n2 t,
+  reset_like r1 = true -> forallb neutral n1 = true -> reset_like r2 = true -> forallb neutral n2 = true ->
+  s_valid (run (h1 ++ r1 :: n1) state0) = s_valid (run (h2 ++ r2 :: n2) state0) ->
+  s_core (run (h1 ++ r1 :: n1 ++ t) state0) = s_core (run (h2 ++ r2 :: n2 ++ t) state0) /\
+  s_valid (run (h1 ++ r1 :: n1 ++ t) state0) = s_valid (run (h2 ++ r2 :: n2 ++ t) state0).
+Proof.
+  intros h1 r1 n1 h2 r2 n2 t H1 N1 H2 N2 Hv.
+  assert (C : forall h r n, reset_like r = true -> forallb neutral n = true -> s_core (run (h ++ r :: n) state0) = core0).
+  { intros h r n Hr Hn. replace (h ++ r :: n) with ((h ++ [r]) ++ n) by (rewrite <- app_assoc; reflexivity).
+    rewrite (run_app (h ++ [r]) n). apply neutral_run_core0; [apply fresh_equiv_from_start; exact Hr | exact Hn]. }
+  replace (h1 ++ r1 :: n1 ++ t) with ((h1 ++ r1 :: n1) ++ t) by (rewrite <- app_assoc; reflexivity).
+  replace (h2 ++ r2 :: n2 ++ t) with ((h2 ++ r2 :: n2) ++ t) by (rewrite <- app_assoc; reflexivity).
+  rewrite (run_app (h1 ++ r1 :: n1) t), (run_app (h2 ++ r2 :: n2) t).
+  apply run_independent_of_ambient; [rewrite !C by assumption; reflexivity | exact Hv].
+Qed.
+
+(* ... and, when validation is as at the start, exactly as on fresh objects *)
+Theorem whole_script_after_reset : forall h r n t,
+  reset_like r = true -> forallb neutral n = true -> s_valid (run (h ++ r :: n) state0) = s_valid state0 ->
+  s_core (run (h ++ r :: n ++ t) state0) = s_core (run t state0) /\ s_valid (run (h ++ r :: n ++ t) state0) = s_valid (run t state0).
+Proof.
+  intros h r n t Hr Hn Hv.
+  replace (h ++ r :: n ++ t) with ((h ++ r :: n) ++ t) by (rewrite <- app_assoc; reflexivity).
+  rewrite (run_app (h ++ r :: n) t). apply run_independent_of_ambient; [|exact Hv].
+  replace (h ++ r :: n) with ((h ++ [r]) ++ n) by (rewrite <- app_assoc; reflexivity).
+  rewrite (run_app (h ++ [r]) n). rewrite (neutral_run_core0 n _ (fresh_equiv_from_start h r Hr) Hn). reflexivity.
+Qed.
